@@ -310,7 +310,7 @@ def step (st : St) (ws : List String) : St × String :=
           | [.err] => "err"
           | [.timeout] => "timeout"
           | _ => "many"
-        (st, s!"ret={ret} dropped={q.dropped} closes={q.ctx.closes}")
+        (st, s!"ret={ret} dropped={q.dropped}")
       | none => (st, "not-allowed")
     | _, _, _ => (st, "bad-op")
   | "leafdl" :: kind :: rest =>
